@@ -98,7 +98,7 @@ CHECKS = {
    technique='every TLC-generated case doubles as a no-panic case (a panic is outside every admissible set); dedicated hostile-value, byte-level and nesting generators; child-process isolation attributes crashes and hangs',
    text='GenHostile puts 33 kinds of non-JSON / non-finite Go values at every leaf position under 81 expressions; GenChars over a byte-level '
         'alphabet (invalid UTF-8, NUL, quotes, backslashes, multi-byte characters) compiles every short concatenation; nesting families are '
-        'scaled to 2x10^5 (quick) / 5x10^6 (thorough) levels; GenCall and GenCost add every function argument tuple and 64-bit magnitudes. '
+        'scaled to 10^5 (quick) / 5x10^6 (thorough) levels; GenCall and GenCost add every function argument tuple and 64-bit magnitudes. '
         'All cases run in worker processes with a watchdog so that a fatal runtime error or a hang is attributed to its input.',
    note='"All Go values" and "any length" are sampled by representative kinds and depths.'),
  'C06': dict(
